@@ -31,7 +31,7 @@ package raft
 //@ -- ------------------------------------------------------------------------------------------
 //@ -- log_unstable.go
 
-//@ pred wf_unstable(u *unstable) := u != nil && u.offset <= u.offsetInProgress && u.offsetInProgress <= u.offset + len(u.entries)
+//@ pred opaque wf_unstable(u *unstable) := u != nil && u.offset <= u.offsetInProgress && u.offsetInProgress <= u.offset + len(u.entries)
 //@     && u.offset + len(u.entries) < 9223372036854775808
 //@     && entriesFrom(u.entries, u.offset)
 //@     && termsMonotone(u.entries)
@@ -39,11 +39,13 @@ package raft
 //@     && (u.snapshotInProgress ==> u.snapshot != nil)
 
 //@ func raft.unstable.maybeFirstIndex [C18]
+//@   reveal wf_unstable
 //@   pure
 //@   requires wf_unstable(u)
 //@   ensures #view (u.snapshot != nil ==> result0 == snapIndex(u.snapshot) + 1 && result1) && (u.snapshot == nil ==> result0 == 0 && !result1)
 
 //@ func raft.unstable.maybeLastIndex [C18]
+//@   reveal wf_unstable
 //@   pure
 //@   requires wf_unstable(u)
 //@   ensures #view (len(u.entries) != 0 ==> result0 == u.offset + len(u.entries) - 1 && result1)
@@ -51,6 +53,7 @@ package raft
 //@        && (len(u.entries) == 0 && u.snapshot == nil ==> result0 == 0 && !result1)
 
 //@ func raft.unstable.maybeTerm [C18 C03]
+//@   reveal wf_unstable
 //@   pure
 //@   requires wf_unstable(u)
 //@   ensures #entries [C18 C03] i >= u.offset && i < u.offset + len(u.entries) ==> result0 == eterm(u.entries[i - u.offset]) && result1
@@ -58,6 +61,7 @@ package raft
 //@   ensures #otherwise [C18] !(i >= u.offset && i < u.offset + len(u.entries)) && !(i < u.offset && u.snapshot != nil && snapIndex(u.snapshot) == i) ==> result0 == 0 && !result1
 
 //@ func raft.unstable.nextEntries [C18 C05]
+//@   reveal wf_unstable
 //@   pure
 //@   requires wf_unstable(u)
 //@   ensures #suffix (u.offsetInProgress == u.offset + len(u.entries) ==> isnil(result))
@@ -65,6 +69,7 @@ package raft
 //@              && len(result) == len(u.entries) - (u.offsetInProgress - u.offset))
 
 //@ func raft.unstable.acceptInProgress [C18 C05]
+//@   reveal wf_unstable
 //@   requires wf_unstable(u)
 //@   frame raft.unstable: u
 //@   ensures #in-progress (len(u.entries) > 0 ==> u.offsetInProgress == u.offset + len(u.entries)) && (len(u.entries) == 0 ==> u.offsetInProgress == old(u.offsetInProgress))
@@ -73,12 +78,14 @@ package raft
 //@   ensures #wf wf_unstable(u)
 
 //@ func raft.unstable.shrinkEntriesArray [C18]
+//@   reveal wf_unstable
 //@   requires u != nil
 //@   frame raft.unstable: u
 //@   ensures len(u.entries) == old(len(u.entries)) && (len(u.entries) > 0 ==> u.entries == old(u.entries)) && u.offset == old(u.offset)
 //@        && u.offsetInProgress == old(u.offsetInProgress) && u.snapshot == old(u.snapshot) && u.snapshotInProgress == old(u.snapshotInProgress)
 
 //@ func raft.unstable.stableTo [C18 C03 C05]
+//@   reveal wf_unstable
 //@   reveal termsMonotone
 //@   requires #wf wf_unstable(u)
 //@   frame raft.unstable: u
@@ -92,6 +99,7 @@ package raft
 //@   ensures #wf wf_unstable(u)
 
 //@ func raft.unstable.stableSnapTo [C18 C09]
+//@   reveal wf_unstable
 //@   requires wf_unstable(u)
 //@   frame raft.unstable: u
 //@   ensures #cleared (old(u.snapshot) != nil && old(snapIndex(u.snapshot)) == i ==> u.snapshot == nil && !u.snapshotInProgress)
@@ -100,6 +108,7 @@ package raft
 //@   ensures #wf wf_unstable(u)
 
 //@ func raft.unstable.restore [C18 C09]
+//@   reveal wf_unstable
 //@   reveal termsMonotone
 //@   requires u != nil && s != nil && snapIndex(s) < 9223372036854775807
 //@   frame raft.unstable: u
@@ -108,17 +117,20 @@ package raft
 //@   ensures #wf wf_unstable(u)
 
 //@ func raft.unstable.mustCheckOutOfBounds [C18 C14]
+//@   reveal wf_unstable
 //@   pure
 //@   requires #wf wf_unstable(u)
 //@   requires #bounds [C14] lo <= hi && u.offset <= lo && hi <= u.offset + len(u.entries)
 
 //@ func raft.unstable.slice [C18 C14]
+//@   reveal wf_unstable
 //@   pure
 //@   requires #wf wf_unstable(u)
 //@   requires #bounds [C14] lo <= hi && u.offset <= lo && hi <= u.offset + len(u.entries)
 //@   ensures #window [C18] result.arr == u.entries.arr && result.off == u.entries.off + (lo - u.offset) && len(result) == hi - lo && cap(result) == hi - lo
 
 //@ func raft.unstable.truncateAndAppend [C18 C03 C01]
+//@   reveal wf_unstable
 //@   reveal termsMonotone
 //@   requires #wf wf_unstable(u)
 //@   requires #ents len(ents) > 0 && contiguous(ents) && termsMonotone(ents) && eindex(ents[0]) + len(ents) < 9223372036854775808
@@ -266,7 +278,7 @@ package raft
 //@ ufun st_last(s Storage) uint64
 //@ ufun st_term(s Storage, i uint64) uint64
 //@ ufun st_ent(s Storage, i uint64) *pb.Entry
-//@ pred wf_storage(s Storage) := !isnil(s) && st_first(s) >= 1 && st_last(s) + 1 >= st_first(s) && st_last(s) < 4611686018427387904
+//@ pred opaque wf_storage(s Storage) := !isnil(s) && st_first(s) >= 1 && st_last(s) + 1 >= st_first(s) && st_last(s) < 4611686018427387904
 //@     && (forall i uint64 :: st_first(s) <= i && i <= st_last(s) ==> allocated(st_ent(s, i)) && eindex(st_ent(s, i)) == i && eterm(st_ent(s, i)) == st_term(s, i))
 //@     && (forall i uint64, j uint64 :: st_first(s) - 1 <= i && i <= j && j <= st_last(s) ==> st_term(s, i) <= st_term(s, j))
 
@@ -310,7 +322,7 @@ package raft
 //@ spec log_ent(l *raftLog, i int) *pb.Entry := i >= l.unstable.offset ? l.unstable.entries[i - l.unstable.offset] : st_ent(l.storage, i)
 //@ pred log_has(l *raftLog, i int) := log_first(l) <= i + 1 && i <= log_last(l)
 
-//@ pred wf_raftLog(l *raftLog) := l != nil && wf_unstable(&l.unstable) && wf_storage(l.storage)
+//@ pred opaque wf_raftLog(l *raftLog) := l != nil && wf_unstable(&l.unstable) && wf_storage(l.storage)
 //@     && l.applied <= l.applying && l.applying <= l.committed && l.committed <= log_last(l)
 //@     && (l.unstable.snapshot == nil ==> st_first(l.storage) <= l.unstable.offset && l.unstable.offset <= st_last(l.storage) + 1 && st_first(l.storage) <= l.applied + 1)
 //@     && (l.unstable.snapshot == nil && len(l.unstable.entries) == 0 ==> l.unstable.offset == st_last(l.storage) + 1)
@@ -322,16 +334,19 @@ package raft
 //@     && l.applyingEntsSize == old(l.applyingEntsSize) && l.applyingEntsPaused == old(l.applyingEntsPaused) && l.maxApplyingEntsSize == old(l.maxApplyingEntsSize)
 
 //@ func raft.raftLog.firstIndex [C18]
+//@   reveal wf_raftLog, wf_unstable, wf_storage
 //@   pure
 //@   requires wf_raftLog(l)
 //@   ensures #view [C18] result == log_first(l)
 
 //@ func raft.raftLog.lastIndex [C18]
+//@   reveal wf_raftLog, wf_unstable, wf_storage
 //@   pure
 //@   requires wf_raftLog(l)
 //@   ensures #view [C18] result == log_last(l)
 
 //@ func raft.raftLog.term [C18 C03]
+//@   reveal wf_raftLog, wf_unstable, wf_storage
 //@   reveal log_term
 //@   pure
 //@   requires wf_raftLog(l)
@@ -342,26 +357,31 @@ package raft
 //@   ensures #term [C18 C03] log_has(l, i) ==> result1 == nil && result0 == log_term(l, i)
 
 //@ func raft.raftLog.zeroTermOnOutOfBounds [C14]
+//@   reveal wf_raftLog, wf_unstable, wf_storage
 //@   pure
 //@   requires err == nil || err == ErrCompacted || err == ErrUnavailable
 //@   ensures result == (err == nil ? t : 0)
 
 //@ func raft.raftLog.matchTerm [C03 C18]
+//@   reveal wf_raftLog, wf_unstable, wf_storage
 //@   pure
 //@   requires wf_raftLog(l)
 //@   ensures #def [C03] result <==> (log_has(l, id.index) && log_term(l, id.index) == id.term)
 
 //@ func raft.raftLog.lastEntryID [C18 C02]
+//@   reveal wf_raftLog, wf_unstable, wf_storage
 //@   pure
 //@   requires wf_raftLog(l)
 //@   ensures #view result.index == log_last(l) && result.term == log_term(l, log_last(l))
 
 //@ func raft.raftLog.isUpToDate [C02 C04]
+//@   reveal wf_raftLog, wf_unstable, wf_storage
 //@   pure
 //@   requires wf_raftLog(l)
 //@   ensures #lexicographic [C02 C04] result <==> (their.term > log_term(l, log_last(l)) || (their.term == log_term(l, log_last(l)) && their.index >= log_last(l)))
 
 //@ func raft.raftLog.commitTo [C06 C07 C14]
+//@   reveal wf_raftLog, wf_unstable, wf_storage
 //@   requires wf_raftLog(l)
 //@   requires #in-range [C14 C06] tocommit <= log_last(l)
 //@   frame raft.raftLog: l
@@ -371,6 +391,7 @@ package raft
 //@   ensures #wf wf_raftLog(l)
 
 //@ func raft.raftLog.maybeCommit [C04 C06 C07]
+//@   reveal wf_raftLog, wf_unstable, wf_storage
 //@   requires wf_raftLog(l)
 //@   frame raft.raftLog: l
 //@   ensures #own-term [C04 C06] result <==> (at.term != 0 && at.index > old(l.committed) && log_has(l, at.index) && log_term(l, at.index) == at.term)
@@ -380,22 +401,26 @@ package raft
 //@   ensures #wf wf_raftLog(l)
 
 //@ func raft.raftLog.maxAppliableIndex [C08]
+//@   reveal wf_raftLog, wf_unstable, wf_storage
 //@   pure
 //@   requires wf_raftLog(l)
 //@   ensures #def [C08] result == (allowUnstable ? l.committed : min(l.committed, l.unstable.offset - 1))
 
 //@ func raft.raftLog.hasNextOrInProgressSnapshot [C08]
+//@   reveal wf_raftLog, wf_unstable, wf_storage
 //@   pure
 //@   requires l != nil
 //@   ensures result <==> l.unstable.snapshot != nil
 
 //@ func raft.raftLog.hasNextCommittedEnts [C08]
+//@   reveal wf_raftLog, wf_unstable, wf_storage
 //@   pure
 //@   requires wf_raftLog(l)
 //@   ensures #agrees [C08] result <==> (!l.applyingEntsPaused && l.unstable.snapshot == nil
 //@        && l.applying < (allowUnstable ? l.committed : min(l.committed, l.unstable.offset - 1)))
 
 //@ func raft.raftLog.appliedTo [C08 C07 C14]
+//@   reveal wf_raftLog, wf_unstable, wf_storage
 //@   requires wf_raftLog(l)
 //@   requires #range [C14 C08] l.applied <= i && i <= l.committed
 //@   frame raft.raftLog: l
@@ -405,6 +430,7 @@ package raft
 //@   ensures #wf wf_raftLog(l)
 
 //@ func raft.raftLog.acceptApplying [C08 C14]
+//@   reveal wf_raftLog, wf_unstable, wf_storage
 //@   requires wf_raftLog(l)
 //@   requires #range [C14 C08] l.applying <= i && i <= l.committed && l.applyingEntsSize + size < 18446744073709551616
 //@   frame raft.raftLog: l
@@ -414,12 +440,14 @@ package raft
 //@   ensures #wf wf_raftLog(l)
 
 //@ func raft.raftLog.mustCheckOutOfBounds [C18 C14]
+//@   reveal wf_raftLog, wf_unstable, wf_storage
 //@   pure
 //@   requires wf_raftLog(l)
 //@   requires #bounds [C14] lo <= hi && hi <= log_last(l) + 1
 //@   ensures #compacted [C18] (lo < log_first(l) ==> result == ErrCompacted) && (lo >= log_first(l) ==> result == nil)
 
 //@ func raft.raftLog.slice [C18 C16 C08 C14]
+//@   reveal wf_raftLog, wf_unstable, wf_storage
 //@   reveal termsMonotone
 //@   requires wf_raftLog(l)
 //@   requires #bounds [C14] lo <= hi && hi <= log_last(l) + 1
@@ -435,6 +463,7 @@ package raft
 //@   ensures #wf wf_raftLog(l)
 
 //@ func raft.raftLog.entries [C18 C16]
+//@   reveal wf_raftLog, wf_unstable, wf_storage
 //@   requires wf_raftLog(l)
 //@   ensures #past-end i > log_last(l) ==> isnil(result0) && result1 == nil
 //@   ensures #compacted i <= log_last(l) && i < log_first(l) ==> isnil(result0) && result1 == ErrCompacted
@@ -447,6 +476,7 @@ package raft
 //@   ensures #wf wf_raftLog(l)
 
 //@ func raft.raftLog.findConflict [C03 C01]
+//@   reveal wf_raftLog, wf_unstable, wf_storage
 //@   pure
 //@   requires wf_raftLog(l)
 //@   requires #ents forall p int :: ents.off <= p && p < ents.off + len(ents) ==> elem(ents, p) != nil && eindex(elem(ents, p)) >= 1
@@ -463,6 +493,7 @@ package raft
 //@             log_has(l, eindex(elem(ents, q))) && log_term(l, eindex(elem(ents, q))) == eterm(elem(ents, q)))
 
 //@ func raft.raftLog.append [C03 C01 C14]
+//@   reveal wf_raftLog, wf_unstable, wf_storage
 //@   reveal log_term
 //@   requires wf_raftLog(l)
 //@   requires #ents len(ents) > 0 ==> contiguous(ents) && termsMonotone(ents) && eindex(ents[0]) + len(ents) < 9223372036854775808 && eindex(ents[0]) >= 1
@@ -483,6 +514,7 @@ package raft
 //@ pred matchesAt(l *raftLog, i int, t int) := log_has(l, i) && log_term(l, i) == t
 
 //@ func raft.raftLog.maybeAppend [C03 C01 C06 C14]
+//@   reveal wf_raftLog, wf_unstable, wf_storage
 //@   reveal termsMonotone
 //@   requires wf_raftLog(l)
 //@   requires #valid validSlice(a)
@@ -508,6 +540,7 @@ package raft
 //@   ensures #wf wf_raftLog(l)
 
 //@ func raft.raftLog.findConflictByTerm [C03]
+//@   reveal wf_raftLog, wf_unstable, wf_storage
 //@   pure
 //@   requires wf_raftLog(l)
 //@   ensures #bound result0 <= index
@@ -516,6 +549,7 @@ package raft
 //@   loop 1 decreases index
 
 //@ func raft.raftLog.nextUnstableEnts [C05 C18]
+//@   reveal wf_raftLog, wf_unstable, wf_storage
 //@   pure
 //@   requires wf_raftLog(l)
 //@   ensures #suffix (l.unstable.offsetInProgress == l.unstable.offset + len(l.unstable.entries) ==> isnil(result))
@@ -524,16 +558,19 @@ package raft
 //@              && len(result) == len(l.unstable.entries) - (l.unstable.offsetInProgress - l.unstable.offset))
 
 //@ func raft.raftLog.hasNextUnstableEnts [C05]
+//@   reveal wf_raftLog, wf_unstable, wf_storage
 //@   pure
 //@   requires wf_raftLog(l)
 //@   ensures result <==> l.unstable.offsetInProgress < l.unstable.offset + len(l.unstable.entries)
 
 //@ func raft.raftLog.hasNextOrInProgressUnstableEnts [C05]
+//@   reveal wf_raftLog, wf_unstable, wf_storage
 //@   pure
 //@   requires l != nil
 //@   ensures result <==> len(l.unstable.entries) > 0
 
 //@ func raft.raftLog.nextCommittedEnts [C08 C01 C14]
+//@   reveal wf_raftLog, wf_unstable, wf_storage
 //@   requires wf_raftLog(l)
 //@   requires #size-accounting [C14] l.applyingEntsPaused || l.applyingEntsSize < l.maxApplyingEntsSize
 //@   ensures #blocked [C08] (l.applyingEntsPaused || l.unstable.snapshot != nil
@@ -550,6 +587,7 @@ package raft
 //@   ensures #wf wf_raftLog(l)
 
 //@ func raft.raftLog.stableTo [C05 C18]
+//@   reveal wf_raftLog, wf_unstable, wf_storage
 //@   reveal termsMonotone
 //@   requires wf_raftLog(l)
 //@   -- E-ready-contract: an acknowledgement that matches the unstable log is only delivered after those entries reached storage
@@ -564,6 +602,7 @@ package raft
 //@   ensures #wf wf_raftLog(l)
 
 //@ func raft.raftLog.acceptUnstable [C05]
+//@   reveal wf_raftLog, wf_unstable, wf_storage
 //@   requires wf_raftLog(l)
 //@   frame raft.raftLog: l
 //@   frame raft.unstable: &l.unstable
@@ -574,6 +613,7 @@ package raft
 //@   ensures #wf wf_raftLog(l)
 
 //@ func raft.raftLog.restore [C09 C07 C18]
+//@   reveal wf_raftLog, wf_unstable, wf_storage
 //@   reveal log_term
 //@   requires wf_raftLog(l) && s != nil
 //@   requires #above-commit [C09 C07] snapIndex(s) > l.committed && snapIndex(s) < 4611686018427387904
